@@ -1,7 +1,7 @@
 (* C06  Secret sharing is textbook Shamir over GF(2^128+12451).  Statements only. *)
 From Coq Require Import ZArith NArith List.
 Import ListNotations.
-From StarV Require Import Params Bytes Fp PolyDefs Shamir FieldFacts Lagrange ShamirFacts LimbPrim LimbGen FpLimbs LimbFacts LimbShamir LimbDeal.
+From StarV Require Import Params Bytes Fp PolyDefs Shamir FieldFacts Lagrange ShamirFacts LimbPrim LimbGen FpLimbs LimbFacts LimbShamir LimbDeal LimbLift LimbOrd.
 
 (* every share is a point (x, f_1 x, ..., f_k x) on the dealt polynomials *)
 Theorem C06_share_is_point : forall (polys : list (list fp)) (x : fp),
@@ -106,3 +106,9 @@ Theorem C06_limbs_share_values : forall (polys : list (list limbs)) (polys' : li
   lrel (fst (levaluate polys x)) (sx (evaluate polys' x')) /\
   Forall2 lrel (snd (levaluate polys x)) (sy (evaluate polys' x')).
 Proof. exact levaluate_correct. Qed.
+
+(* the key under which recover remembers a share point (the to_repr bytes of x): two points have equal keys iff they are the
+   same field element iff their limbs are equal - so the limb code de-duplicates exactly as the model does with field equality *)
+Theorem C06_limbs_dedup_key : forall a b : limbs, lvalid a -> lvalid b ->
+  (lto_repr a = lto_repr b <-> labs a = labs b) /\ (labs a = labs b <-> a = b).
+Proof. exact ldedup_key. Qed.
